@@ -530,7 +530,7 @@ impl assets_manager::Compound for HoldGuard {
         drop(g);
         Ok(HoldGuard)
     }
-    const HOT_RELOADED: bool = false;
+    // reloadable (the default): its load runs with the thread's dependency recorder switched on
 }
 
 /// `amv c07-stress <out.ndjson> <seed> <writes> <mode: local|static>`
@@ -642,41 +642,51 @@ pub fn c07(args: &[String]) {
     // (the id read before the poll is newer than the id read right after that `true`) must be reported
     let missed_reports = Arc::new(AtomicU64::new(0));
     let polls = Arc::new(AtomicU64::new(0));
-    for i in 0..3 {
+    for i in 0..6 {
         let stop = stop.clone();
         let missed_reports = missed_reports.clone();
         let polls = polls.clone();
         readers.push(std::thread::spawn(move || {
             trace::set_thread(&format!("w{}", i + 1));
             let mut w = h.reload_watcher();
-            let mut seen = crate::front::rid_of(h.last_reload_id());
+            // ReloadId is ordered: no formatting in this loop, the polls must be as dense as possible
+            let mut seen = h.last_reload_id();
             let mut n = 0u64;
             while !stop.load(Ordering::Relaxed) {
-                let pre = crate::front::rid_of(h.last_reload_id());
-                if w.reloaded() {
-                    seen = crate::front::rid_of(h.last_reload_id());
-                } else if pre > seen {
-                    missed_reports.fetch_add(1, Ordering::Relaxed);
-                    seen = pre;
+                for _ in 0..64 {
+                    let pre = h.last_reload_id();
+                    if w.reloaded() {
+                        seen = h.last_reload_id();
+                    } else if pre > seen {
+                        missed_reports.fetch_add(1, Ordering::Relaxed);
+                        seen = pre;
+                    }
                 }
-                n += 1;
+                n += 64;
             }
             polls.fetch_add(n, Ordering::Relaxed);
         }));
     }
     let mut sent = 0usize;
+    let mut stalled = false;
     for k in 1..=writes {
         src.put("a", "x", format!("v{k}").as_bytes());
         trace::emit(json!({"ev":"Notified","th":"main"}));
         src.send(&[OwnedDirEntry::File("a".into(), "x".into())]);
         sent += 1;
         if is_static {
+            // once one rewrite did not come within 10 s the others are not waited for (the report says it all)
             let t0 = std::time::Instant::now();
-            while crate::front::rid_of(h.last_reload_id()) < k && t0.elapsed() < std::time::Duration::from_secs(10) {
+            while !stalled && crate::front::rid_of(h.last_reload_id()) < k {
+                if t0.elapsed() > std::time::Duration::from_secs(10) {
+                    stalled = true;
+                }
                 std::thread::sleep(std::time::Duration::from_micros(200));
             }
         } else {
-            trace::wait_until(std::time::Duration::from_secs(10), |l| l.iter().filter(|x| x["ev"] == "EventsEnd").count() >= sent);
+            if !stalled && !trace::wait_until(std::time::Duration::from_secs(10), |l| l.iter().filter(|x| x["ev"] == "EventsEnd").count() >= sent) {
+                stalled = true;
+            }
             trace::emit(json!({"ev":"Begin","op":"hot_reload","th":"main"}));
             cache.hot_reload();
             trace::emit(json!({"ev":"End","op":"hot_reload","th":"main"}));
